@@ -1,5 +1,6 @@
 import RlModel.Lemmas.Scan
 import RlModel.Thm.C12
+import RlModel.Gen.RangeGuard
 /-!
 # C13 — a key-range scan returns exactly the rows in the range
 
@@ -362,14 +363,25 @@ def WellTyped (t : TableMeta) (rs : RowSet) : Prop := ∀ c ∈ t.intCols, keysI
 /-- scan lists are in table order -/
 def TableOrder (cols : List Nat) : Prop := cols.Pairwise (· < ·)
 
+/-- `rangeGuard` is generated from `is_primary_key_range` on every run (Gen/RangeGuard.lean: which
+bound shapes `is_int` accepts, how the two bounds are combined, the conditions on the column). The
+statement is the storage precondition of `rowset_range_scan_exact`: EVERY bound is an INT constant
+or absent, the key is the table's column 0, PRIMARY KEY, of type INT. A guard that lets a range
+through with one bound of another type (seeded change s6c13: `||` → `&&`) does not prove this. -/
 theorem guard_implies_precondition (t : TableMeta) (e : Expr) (k : Nat) (r : KeyRange)
     (han : analyzeRange e = some (k, r)) (hg : rangeGuard t e = true) :
     k = 0 ∧ k ∈ t.primary ∧ k ∈ t.intCols ∧ bndI32 r.lo = true ∧ bndI32 r.hi = true := by
   unfold rangeGuard at hg
   rw [han] at hg
-  simp only [Bool.and_eq_true, beq_iff_eq, List.contains_eq_mem, decide_eq_true_eq] at hg
-  obtain ⟨⟨⟨⟨h1, h2⟩, h3⟩, h4⟩, h5⟩ := hg
-  exact ⟨h2, h1, h3, h4, h5⟩
+  have hb : ∀ b : Bnd, guardIsInt b = true → bndI32 b = true := by
+    intro b h
+    cases b <;> simp_all [guardIsInt, bndI32]
+  simp only [guardBoundsReject, guardColumn, Bool.and_eq_true, Bool.or_eq_true, Bool.not_eq_true',
+    Bool.not_eq_false', Bool.or_eq_false_iff, Bool.and_eq_false_iff, beq_iff_eq, List.contains_eq_mem,
+    decide_eq_true_eq, Bool.not_eq_eq_eq_not, Bool.not_true, Bool.not_false] at hg
+  have hlo := hb r.lo
+  have hhi := hb r.hi
+  refine ⟨?_, ?_, ?_, ?_, ?_⟩ <;> grind
 
 theorem head_of_table_order (cols : List Nat) (ho : TableOrder cols) (h0 : 0 ∈ cols) : cols.headD 0 = 0 := by
   cases cols with
